@@ -352,6 +352,44 @@ class CFG:
                 res.append(d)
         return res
 
+    def value_at(self, node, expr, depth=5):
+        """A copy of expr as it reads at `node`: a local name with exactly one reaching assignment `x = <rhs>` (plain, single
+        target) is replaced by <rhs> as it reads at that assignment, repeatedly.  Parameters, names with several reaching
+        assignments, loop targets and unpacked tuples stay."""
+        import copy
+        cfg = self
+        params = {a.arg for a in ast.walk(self.func.args) if isinstance(a, ast.arg)} if hasattr(self, 'func') and hasattr(self.func, 'args') else set()
+
+        class T(ast.NodeTransformer):
+            def __init__(self, at, d):
+                self.at, self.d = at, d
+
+            def visit_Name(self, n):
+                if not isinstance(n.ctx, ast.Load) or self.d <= 0:
+                    return n
+                defs = cfg.reaching_assignments(self.at, n.id)
+                if len(defs) == 1 and defs[0].kind == 'stmt' and isinstance(defs[0].ast, ast.Assign) and len(defs[0].ast.targets) == 1 and \
+                        isinstance(defs[0].ast.targets[0], ast.Name) and defs[0] is not self.at:
+                    return T(defs[0], self.d - 1).visit(copy.deepcopy(defs[0].ast.value))
+                return n
+
+            def _scoped(self, n):
+                return n        # names bound inside are not the function's locals: left alone (their iterables too, conservatively)
+            visit_Lambda = _scoped
+
+            def _comp(self, n):
+                bound = {x.id for g in n.generators for x in ast.walk(g.target) if isinstance(x, ast.Name)}
+                outer = self
+
+                class Inner(T):
+                    def visit_Name(self, m):
+                        if m.id in bound:
+                            return m
+                        return T.visit_Name(self, m)
+                return Inner(outer.at, outer.d).generic_visit(n)
+            visit_ListComp = visit_SetComp = visit_GeneratorExp = visit_DictComp = _comp
+        return T(node, depth).visit(copy.deepcopy(expr))
+
     def nodes_of_kind(self, *kinds):
         return [n for n in self.nodes if n.kind in kinds]
 
